@@ -160,16 +160,24 @@ Definition mcase_is (c : mcase) : bool :=
    between does not matter by C10_mixed_eval_history_independent - if the implementation depended on it, it shows here.
    xprog_typed: the program is well typed (Heap/MixState.v xprog_wt: the key of a list-valued entry / let starts with
    `l`, every other key does not - the model's handles are untyped) and the body folds nothing at Generate time *)
-Inductive xcase := XCase (p : xprog) (evals : list (list Z * nat * outcome)).
+Inductive xcase := XCase (p : xprog) (evals : list (list Z * nat * xoutcome)).
 
-Definition xprog_typed (p : xprog) : bool := xprog_wt p && body_nofold (xp_body p).
+Definition xprog_typed (p : xprog) : bool :=
+  xprog_wt p && match xp_body p with XB b => body_nofold b | XBStr _ => true end.
 
-Fixpoint xsess_im (cp : caps) (g : xgstate) (evs : list (list Z * nat * outcome)) : bool :=
+Definition xoutcome_eqb (a b : xoutcome) : bool :=
+  match a, b with
+  | XO x, XO y => outcome_eqb x y
+  | XOStr s, XOStr t => str_eqb s t
+  | _, _ => false
+  end.
+
+Fixpoint xsess_im (cp : caps) (g : xgstate) (evs : list (list Z * nat * xoutcome)) : bool :=
   match evs with
   | [] => true
   | (args, j, o) :: r =>
       let '(h1, mh1, o') := xeval_in cp g 0 args j in
-      outcome_eqb o' o && xsess_im cp (mkXG h1 mh1 (xg_funcs g)) r
+      xoutcome_eqb o' o && xsess_im cp (mkXG h1 mh1 (xg_funcs g)) r
   end.
 
 Definition xcase_im (cp : caps) (c : xcase) : bool :=
@@ -183,7 +191,7 @@ Definition xcase_is (c : xcase) : bool :=
   match c with
   | XCase p evs =>
       forallb (fun e => match sp_xprog p (fst (fst e)) (snd (fst e)) with
-                        | Some o => outcome_eqb o (snd e)
+                        | Some o => xoutcome_eqb o (snd e)
                         | None => false
                         end) evs
   end.
